@@ -60,7 +60,7 @@ func init() {
 	reg("C20", ruleWatchSerialised, ruleWatchRecovers, ruleChdirRestored)
 	reg("C18", ruleCollectPackages, ruleNamespaceFlattening, ruleE2(frontScope, "E2"), ruleE5(frontScope, "E5"))
 	reg("C11", ruleValidateBeforeWrite, ruleWhoMayWrite, ruleE1(inMod, "E1"), ruleE2(inMod, "E2"), ruleE5(inMod, "E5"))
-	reg("C09", rulePassOrder, ruleVisitorCoverage("VisitorWithContext.VisitChildren", "V1", "V2", 30), ruleVisitorCoverage("defaultRewriteImpl", "V3", "V4", 30), ruleAllModelsValidated, rulePrunes(dslValidationFiles, "V5", 20),
+	reg("C09", rulePassOrder, ruleVisitorCoverage("VisitorWithContext.VisitChildren", "V1", "V2", 30), ruleVisitorCoverage("defaultRewriteImpl", "V3", "V4", 30), ruleAllModelsValidated, rulePrunes(dslValidationFiles, "V5", 20), ruleContextPositionTests,
 		ruleE1(frontScope, "E1"), ruleE2(frontScope, "E2"), ruleE5(frontScope, "E5"))
 	reg("C12", ruleMapOrder, ruleSinkSort, ruleCommutativeCallbacks, ruleNoNondeterminism, ruleWriteIfNeeded, ruleWhoMayWrite)
 }
